@@ -1986,7 +1986,7 @@ func (s *Netceptor) runProtocol(ctx context.Context, sess BackendSession, bi *Ba
 	}
 	ci.Context, ci.CancelFunc = context.WithCancel(ctx)
 	ci.vn, ci.vsess = s.vn, fmt.Sprintf("%p", sess)
-	verifhook.Emit(s.vn, "sess_start", "sess", ci.vsess)
+	verifhook.Emit(s.vn, "sess_start", "sess", ci.vsess, "cost", bi.connectionCost, "allow", bi.allowedPeers, "nodecost", bi.nodeCost)
 	go ci.protoReader(sess)
 	go ci.protoWriter(sess)
 	initDoneChan := make(chan bool)
